@@ -1,5 +1,6 @@
 import WellenModel.Proofs.EntryRoundtrip
 import WellenModel.Proofs.Stream
+import WellenModel.Proofs.Block
 import WellenModel.Proofs.Tables
 import WellenModel.Model.Spec
 /-!
@@ -85,6 +86,15 @@ theorem C04_stream_strings (cs : List (Nat × List Nat)) (h : ∀ c ∈ cs, c.1 
     (fuel last : Nat) (a : Acc) (hf : cs.length < fuel) :
     loadStrings fuel (encStrings cs) last a = some (replayPlain cs last a).2 :=
   loadStrings_stream cs h fuel last a hf
+
+/-- block level: the offset table of `finish_block` lets `get_offset_and_length` cut every signal's bytes back out of the block,
+for every number of signals and every mix of signals with and without data -/
+theorem C04_block_slice (c : Codec) (signals : Array SigEnc) (i : Nat) (d : List Nat)
+    (hd : (signals.toList.map fun s => (finishSignal c s).2)[i]? = some (some d)) :
+    let r := finishSignals c signals
+    let b : Block := { startTime := 0, timeTable := [], offsets := r.2.1, data := r.2.2 }
+    ∃ off len, b.offsetAndLength i = some (off, len) ∧ (b.data.drop off).take len = d :=
+  block_slice c signals i d hd
 
 /-- the stream the theorems are about is what the encoder appends: `add_n_bit_change` on a multi-bit signal -/
 theorem C04_encoder_chunk (ti : Nat) (value : List Nat) (st : States) (s s' : SigEnc) (bits : Nat)
